@@ -435,7 +435,8 @@ def run(ctx, col: Collector):
         gens = [n for n in ast.walk(re_.node) if isinstance(n, (ast.GeneratorExp, ast.ListComp)) and norm(n.generators[0].iter) == f'{m}.items']
         col.check(len(gens) == 1 and not gens[0].generators[0].ifs, 'C03-enum', 'render_enum:items-in-order', 'every item, in order',
                   'render_enum does not render every item of model.items in order', node=re_.node, file=re_.file)
-        rd = idx.func(f'{SQLD}.renderer', 'DefaultSQLRenderer.render_db')
+        from .common import expanded
+        rd = expanded(ctx, f'{SQLD}.renderer', 'DefaultSQLRenderer.render_db', keep_extra=('render', 'reorder_tables_for_sql'))
         dbp = [a.arg for a in rd.node.args.args][1]
         reads_enums = sum(1 for x in ast.walk(rd.node) if isinstance(x, ast.Attribute) and norm(x) == f'{dbp}.enums')
         reads_tables = sum(1 for x in ast.walk(rd.node) if isinstance(x, ast.Attribute) and norm(x) == f'{dbp}.tables')
